@@ -68,6 +68,7 @@ def sessions(ctx):
             g = gen.SessionGen(ctx.seed * 472882027 + k, nconn=(1, 2), nmsg=(15, 40), junk=0.02, cmds=0.4, core=True, unresolved=0.08,
                                matcher_depth=1, with_init_filter=0.5)
             yield g.session(), {'dialect': 'old'}, 'random-live'
+        yield from sessbase.rich_sessions(ctx, 1000081, ctx.pick(30, 300), cmds=0.4, with_init_filter=0.5)
     return it
 
 
